@@ -18,8 +18,8 @@ LEVEL = "exploration"
 RULE = (
     "one run = 3-5 inputs of one dialect, partly siblings (same base, different mutation) (dialect fixtures <= 1.5 kB from /repo/test/fixtures/dialects when readable, alone or two concatenated, "
     "a built-in corpus, small Jinja files with loops/ifs, and seeded token-level mutations of those: delete / "
-    "duplicate / swap a token, truncate, stray bracket / keyword / quote, count-preserving token replacement; in half "
-    "of the runs also an 'aborted parse, then its near twin' pair: a two-statement base whose copy A has an unpartnered "
+    "duplicate / swap a token, truncate, stray bracket / keyword / quote, count-preserving token replacement; in three quarters "
+    "of the full runs also an 'aborted parse, then its near twin' pair: a two-statement base whose copy A has an unpartnered "
     "opening bracket in the second half - the parser raises part-way - and whose copy B differs by one token in the "
     "first half, parsed back to back) parsed inside ONE long-lived node in a drawn order with repeats (siblings adjacent in half of the runs), interleaved with parses and lint+fix runs of other dialects, each parse under a drawn "
     "buggify configuration (parse cache answering 'miss' on a fraction r of its hits, first-token pruning skipped on "
@@ -200,7 +200,7 @@ def gen_inputs(rng: Rng) -> tuple[list[dict], list[dict]]:
             t2, m2 = mutate(rng, base_text, force_tag=True)
             if t2 != text:
                 inputs.append({"text": t2, "base": base_text, "dialect": d, "templater": templater, "src": src, "mut": m2})
-    if rng.chance(0.5):
+    if rng.chance(0.75):
         # an "aborted parse, then its near twin" pair: a multi-statement base; twin A gets an
         # opening bracket without partner in the second half (the parser raises part-way, after
         # the earlier statements were matched), twin B a count-preserving change in the first
@@ -317,7 +317,7 @@ def run_one(ctx: Any, seed: int, tier: str, replay: Optional[dict] = None) -> di
     else:
         inputs, fillers = gen_inputs(rng.fork("inputs"))
         sweep = gen_sweep(rng.fork("sweep"), 6 if tier == "quick" else 8)
-        if rng.fork("mode").chance(0.4):
+        if rng.fork("mode").chance(0.33):
             # a sweep-only run: no history, no fresh references - just many (half of them mutated) fixtures
             # parsed with defaults and with both optimisations off in one process. Forks are what is
             # expensive here, so this is the cheapest way to many optimised-vs-unoptimised comparisons.
